@@ -544,7 +544,7 @@ pub fn gen_op(rng: &mut Rng, gs: &mut GenState, cfg: &Config, pres: &[Option<Obs
                     _ => rng.bool(),
                 })
                 .collect();
-            OpKind::IterScript { kind, script, end: EndMode::Drop }
+            OpKind::IterScript { kind, script, end: if rng.chance(1, 6) { EndMode::PanicDrop } else { EndMode::Drop } }
         }
         CAT_DEBUG => OpKind::DebugFmt,
         CAT_GETTERS => OpKind::Getters,
